@@ -471,7 +471,8 @@ class RelayMode(vlib.Mode):
                         F.append(("C09" if not auth else "C10", "admin-call-granted-without-right" if not auth else "bad-params-accepted",
                                   f"{op} answered {code} (token admin-valid={auth}, params ok={good_params})")); break
                     if not ok and auth and good_params:
-                        F.append(("C09x", "valid-admin-call-refused", f"{op} -> {code}")); break
+                        # a deny / allow that is valid in every respect must take effect (C10: "until the expiry given", however far away)
+                        F.append(("C10", "valid-deny-or-allow-refused", f"{op} of {bid!r} until {expv} by a valid relay:admin token at {now} -> {code}")); break
                     if auth and not header_valid(b, now): pass
                     if not ok and header_valid(b, now) and not admin_valid(b, now, "relay:admin") and code != 401 and good_params:
                         F.append(("C09", "missing-scope-not-401", f"{op} with a valid token lacking relay:admin answered {code}")); break
